@@ -1278,6 +1278,7 @@ pub trait BigInteger:
         if (2..64).contains(&w) {
             let mut res = vec![];
             let mut e = *self;
+            let mut carry = false;
 
             while !e.is_zero() {
                 let z: i64;
@@ -1286,13 +1287,18 @@ pub trait BigInteger:
                     if z >= 0 {
                         e.sub_with_borrow(&Self::from(z as u64));
                     } else {
-                        e.add_with_carry(&Self::from((-z) as u64));
+                        carry = e.add_with_carry(&Self::from((-z) as u64));
                     }
                 } else {
                     z = 0;
                 }
                 res.push(z);
                 e.div2();
+                if carry {
+                    // the bit carried out of the top limb is shifted back in
+                    e.as_mut()[Self::NUM_LIMBS - 1] |= 1 << 63;
+                    carry = false;
+                }
             }
 
             Some(res)
